@@ -439,8 +439,37 @@ class ScanHook:
         gL, cL = g_lit.fields[0].len, c_lit.fields[0].len
         step = pis_const(st.norm(padd(gL.p, cL.p, -1)))
         if step == 8 and self.name == 'accum_coeff':
+            # SWAR step (the pair of bit-trick functions is summarised by what H-SWAR proves about it): the eight bytes consumed are digits and
+            # the accumulator is fold(10^8 * old + the number they spell)
+            g_acc = gen['snap']['frames'][0][1].get(101)
+            c_acc = st.frames[0].L.get(101)
+            val = {}
+            lanes = st.ghost.get('last_chunk')
+            if not lanes or len(lanes) != 8:
+                return self.fail(st, 'the 8-byte step did not convert a chunk of eight digit bytes')
+            for j, fl_ in enumerate(lanes):
+                bp = dict(fl_)
+                ls = plinear_single_(bp)
+                d_ = st.atoms.desc[ls[0]] if ls else None
+                pos = padd(gL.p, pconst(j), -1)
+                if not (d_ and d_[0] == 'byteat' and poly_eq(st, dict(d_[1]), pos)):
+                    return self.fail(st, 'lane %d of the converted chunk is not the byte at position %d of the step' % (j, j))
+                # (that the byte is a digit was established when the chunk was converted: the summary records a chunk only then)
+                val = padd(val, pscale(padd(bp, pconst(48), -1), 10 ** (7 - j)))
+            want = padd(pscale(g_acc.p, 10 ** 8), val)
+            cur = st.norm(c_acc.p)
+            ok = poly_eq(st, cur, want)
+            if not ok and self.flavour == 'saturating':
+                ok = st.sign(padd(cur, pconst(TWO128 - 1), -1)) == ZERO and st.sign(padd(want, pconst(TWO128 - 1), -1)) <= (ZERO | POS)
+            if not ok and self.flavour == 'wrapping':
+                ls = plinear_single_(cur)
+                mr = st.modrep.get(ls[0]) if ls else None
+                ok = mr is not None and mr[1] == TWO128 and poly_eq(st, dict(mr[0]), want)
+            if not ok:
+                return self.fail(st, 'accumulator after the 8-byte step is %s (range %s; sign of the unfolded value minus 2^128-1: %s), expected fold(10^8 * old + the eight digits)'
+                                 % (st.atoms.pstr(cur)[:80], st.range_of(cur), sorted(st.sign(padd(want, pconst(TWO128 - 1), -1)))))
             self.steps.add(8)
-            return True            # SWAR step: eight bytes at once (its digit test and conversion are contract A)
+            return True
         if step != 1:
             return self.fail(st, 'one iteration consumes %s bytes, expected exactly one' % (step,))
         al = allowed_at(st, gL.p)
@@ -464,7 +493,8 @@ class ScanHook:
             if poly_eq(st, cur, want):
                 ok = True               # exact step (no overflow on this path)
             elif self.name == 'accum_coeff' and self.flavour == 'saturating':
-                ok = pis_const(cur) == TWO128 - 1 and st.sign(padd(want, pconst(TWO128), -1)) <= (ZERO | POS)
+                # min(10 * old + digit, 2^128 - 1): the saturated branch
+                ok = st.sign(padd(cur, pconst(TWO128 - 1), -1)) == ZERO and st.sign(padd(want, pconst(TWO128 - 1), -1)) <= (ZERO | POS)
             elif self.name == 'accum_coeff' and self.flavour == 'wrapping':
                 ls = plinear_single_(cur)
                 mr = st.modrep.get(ls[0]) if ls else None
@@ -483,13 +513,42 @@ def plinear_single_(p):
     return ls if ls is not None and ls[1] == 1 and ls[2] == 0 else None
 
 
+def swar_summaries():
+    """the SWAR pair as proved by H-SWAR: contains(k) true only if all eight bytes are digits; chunk_to_u64 of eight digit bytes is the number they spell"""
+    from ..absint import Lanes
+
+    def s_contains(I, st, args, fid):
+        k = args[0]
+        if not isinstance(k, Lanes):
+            raise Stop('chunk_contains_8_digits on %r' % (k,))
+        if st.choose(2) == 0:
+            for b in k.lanes:
+                st.assume_in_range(b.p, 48, 57)
+            return K(1, 'bool')
+        return K(0, 'bool')
+
+    def s_value(I, st, args, fid):
+        k = args[0]
+        if not isinstance(k, Lanes):
+            raise Stop('chunk_to_u64 on %r' % (k,))
+        v = {}
+        for j, b in enumerate(k.lanes):
+            lo, hi = st.itv(b)
+            if lo < 48 or hi > 57:
+                return st.fresh('u64', tag='chunk')
+            v = padd(v, pscale(padd(b.p, pconst(48), -1), 10 ** (7 - j)))
+        st.ghost = dict(st.ghost, last_chunk=tuple(pfreeze(b.p) for b in k.lanes))
+        return I.mk(st, 'u64', v, 0, 10 ** 8 - 1)
+    return {P + 'chunk_contains_8_digits': s_contains, P + 'chunk_to_u64': s_value}
+
+
 def job_scan(db, name):
     """the run part of contract A for the byte-at-a-time loops, proved: every iteration consumes one byte of the class and folds its digit;
     on return the next byte (if any) is outside the class"""
     fn = helper(db, name)
     flavour = accum_flavour(db)
     bad = []
-    opts = Opts(max_paths=20000)
+    opts = Opts(max_paths=20000, summaries=swar_summaries())
     opts.unroll_loops = False
     opts.byte_positions = True
     hook = ScanHook(name, flavour)
@@ -526,11 +585,70 @@ def job_scan(db, name):
         bad.append('no returning path')
     if 1 not in hook.steps:
         bad.append('no single-byte iteration was checked')
+    if name == 'accum_coeff' and 8 not in hook.steps:
+        bad.append('the 8-byte iteration was not checked')
     seen = []
     for b in bad:
         if b not in seen:
             seen.append(b)
     return [('H-SCAN-STEP', name, not seen, '; '.join(seen[:3]) or 'paths=%d; iterations checked: %s' % (len(outs), sorted(hook.steps)), span_str(fn.get('span')) if seen else None)]
+
+
+# ----------------------------------------------------------------------------- the SWAR pair of the 8-digit step
+def job_swar(db, what, cell):
+    """(1) chunk_contains_8_digits(k) is false whenever some byte of k is not an ASCII digit: one cell per (index j of the lowest non-digit byte,
+    class of that byte: below '0' / ':'..0xB9 / 0xBA..0xFF), bytes below j digits, bytes above j arbitrary; plus the all-digits cell (true).
+    (2) for eight digit bytes chunk_to_u64(k) is the number they spell (first byte most significant)."""
+    from ..absint import Lanes
+    bad = []
+    if what == 'contains':
+        fn = db.fns.get(P + 'chunk_contains_8_digits')
+        if fn is None:
+            return [('H-SWAR', 'contains;%s' % (cell,), False, 'chunk_contains_8_digits not found', None)]
+        I = Interp(db, Opts(max_paths=200))
+        st = I.new_state()
+        lanes = []
+        j0, cls = cell
+        for j in range(8):
+            if j0 is None or j < j0:
+                lo, hi = 48, 57
+            elif j == j0:
+                lo, hi = {'low': (0, 47), 'mid': (58, 185), 'high': (186, 255)}[cls]
+            else:
+                lo, hi = 0, 255
+            lanes.append(st.sym('b%d' % j, lo, hi, 'u8'))
+        I.call_root(st, fn, [Lanes('u64', lanes)])
+        outs = I.explore(st)
+        want = 1 if j0 is None else 0
+        for o in outs:
+            if o.kind != 'ret' or not isinstance(o.value, Int) or o.state.itv(o.value) != (want, want):
+                bad.append('expected %s: %s' % (bool(want), show_outcome(o)[:200]))
+        if not outs:
+            bad.append('no outcome')
+        key = 'contains;%s' % ('all-digits' if j0 is None else 'byte%d=%s' % (j0, cls))
+        return [('H-SWAR', key, not bad, '; '.join(bad[:2]) or 'returns %s' % bool(want), span_str(fn.get('span')) if bad else None)]
+    fn = db.fns.get(P + 'chunk_to_u64')
+    if fn is None:
+        return [('H-SWAR', 'value', False, 'chunk_to_u64 not found', None)]
+    I = Interp(db, Opts(max_paths=200))
+    st = I.new_state()
+    ds = [st.sym('d%d' % j, 0, 9, 'u64') for j in range(8)]
+    k = {}
+    want = {}
+    for j, d in enumerate(ds):
+        k = padd(k, pscale(padd(d.p, pconst(48)), 256 ** j))
+        want = padd(want, pscale(d.p, 10 ** (7 - j)))
+    I.call_root(st, fn, [I.mk(st, 'u64', k)])
+    outs = I.explore(st)
+    for o in outs:
+        if o.kind != 'ret' or not isinstance(o.value, Int) or not poly_eq(o.state, o.value.p, want):
+            bad.append('expected d0*10^7 + ... + d7: %s' % show_outcome(o)[:300])
+    if not outs:
+        bad.append('no outcome')
+    return [('H-SWAR', 'value', not bad, '; '.join(bad[:2]) or 'paths=%d: the number spelled by the eight digits' % len(outs), span_str(fn.get('span')) if bad else None)]
+
+
+SWAR_JOBS = [('swar', ('contains', (None, None)))] + [('swar', ('contains', (j, c))) for j in range(8) for c in ('low', 'mid', 'high')] + [('swar', ('value', None))]
 
 
 # ----------------------------------------------------------------------------- grammar clause: which byte strings are accepted
@@ -743,6 +861,8 @@ def run_job(job):
     bad = []
     if kind == 'scan':
         return job_scan(db, name)
+    if kind == 'swar':
+        return job_swar(db, name[0], name[1])
     if kind == 'value+grammar':
         return job_value(db) + job_grammar(db)
     if kind == 'helper':
@@ -811,9 +931,10 @@ def run(rep, tier):
     rep.configs = ['default']
     rep.level = 'other'
     jobs = [('helper', 'skip_leading_zeroes'), ('helper', 'accum_coeff'), ('helper', 'accum_exp'), ('root', 'str_to_dec'), ('root', 'from_str'), ('value+grammar', None),
-            ('scan', 'skip_leading_zeroes'), ('scan', 'accum_coeff'), ('scan', 'accum_exp')]
-    run_jobs(rep, __name__, jobs, nproc=9, chunk=1)
+            ('scan', 'skip_leading_zeroes'), ('scan', 'accum_coeff'), ('scan', 'accum_exp')] + SWAR_JOBS
+    run_jobs(rep, __name__, jobs, nproc=12, chunk=1)
     rep.floor('H-SCAN-STEP', 3)
+    rep.floor('H-SWAR', len(SWAR_JOBS))
     rep.floor('G-PARSE-GRAMMAR', 1)
     rep.floor('H-PARSER-HELPER', 3)
     rep.floor('R-NOPANIC', 2)
@@ -843,9 +964,11 @@ def run(rep, tier):
         sh, why = fwd.shape_multi(fn) if fn else (None, 'missing')
         ok = bool(sh) and sh[-1]['callee'] == (fs or {}).get('id') and sh[-1]['ret'] == 'returned' and len(sh) <= 2
         rep.ob('R-FWD-STR', 'TryFrom<%s>' % src, ok, 'forwards to from_str: %s (%s)' % (sh, why))
-    rep.assume('CONTRACT A is used by clauses (2) and (3); its byte-at-a-time part is PROVED here (H-SCAN-STEP: in skip_leading_zeroes, accum_exp and the tail loop of accum_coeff one iteration from the generalised loop state '
-               'consumes exactly one byte, that byte was tested to be \'0\' resp. a digit, the accumulator becomes fold(10 * old + digit) with the arithmetic of the body, and on return the next byte, if any, is outside the class); '
-               'what stays ASSUMED: the 8-bytes-at-once step of accum_coeff (chunk_contains_8_digits is true exactly for eight ASCII digits, chunk_to_u64 is their value - SWAR bit tricks), and that folding step by step equals folding the whole numeral.')
+    rep.assume('CONTRACT A is used by clauses (2) and (3) and is itself PROVED here, per iteration: H-SCAN-STEP - in skip_leading_zeroes, accum_exp and both loops of accum_coeff one iteration from the generalised '
+               'loop state consumes exactly one byte (eight in the SWAR loop), the consumed bytes were tested to be \'0\' resp. digits, the accumulator becomes fold(10 * old + digit) resp. fold(10^8 * old + the eight digits) '
+               'with the arithmetic of the body, and on return the next byte, if any, is outside the class; H-SWAR - chunk_contains_8_digits(k) is false whenever some byte of k is not an ASCII digit (25 cells by lowest '
+               'non-digit byte and its class, bytes kept as lanes) and chunk_to_u64 of eight digit bytes is the number they spell. TRUSTED remainder: folding step by step equals folding the whole numeral (wrapping: '
+               'arithmetic modulo 2^128; saturating: min(., 2^128-1) is absorbing), u64::from_le of an unaligned read gives the bytes in memory order.')
     rep.assume('CONTRACT A as used (statement): skip_leading_zeroes consumes the maximal prefix of \'0\' bytes; accum_coeff consumes the maximal prefix of k ASCII digits and leaves '
                '*coeff = (*coeff * 10^k + value of these digits) folded with the arithmetic its body uses (all multiply / add steps wrapping_* -> modulo 2^128, all saturating_* -> min(.., 2^128-1); read off the MIR, '
                'anything else fails the check), returning k; accum_exp likewise, exact for at most 2 digits. The SWAR digit test / conversion (chunk_contains_8_digits, chunk_to_u64) is inside this contract.')
